@@ -136,7 +136,7 @@ func runCheck(o *checkOpts) int {
 		cfg.NoIfConvert = g.NoIfConv
 		cfg.LazyFork = g.LazyFork
 		cfg.Concretize = g.Concretize
-		cfg.WallS = 300
+		cfg.WallS = 900
 		cfg.Progress = o.verbose
 		if thorough {
 			cfg.Witnesses = 64
